@@ -96,6 +96,11 @@ def commonAncestor (a : Arena) (s t : Nat) : QR Nat :=
     let c := cursor ps pt
     if c = 0 then .err "GeneralError" else .ok (ps.getD (c - 1) 0)
 
+/-- sum of optional lengths, absent as soon as one is absent (the `all_dists` flag of `get_distance`) -/
+def optAdd (acc l : Option Int) : Option Int :=
+  match acc, l with | some s, some v => some (s + v) | _, _ => none
+def optSum (l : List (Option Int)) : Option Int := l.foldl optAdd (some 0)
+
 /-- `Tree::get_distance`: (sum of lengths if all present, number of edges) -/
 def distance (a : Arena) (s t : Nat) : QR (Option Int × Nat) :=
   if s = t then .ok (some 0, 0) else do
@@ -103,9 +108,7 @@ def distance (a : Arena) (s t : Nat) : QR (Option Int × Nat) :=
     let pt ← pathFromRoot a t
     let c := cursor ps pt
     let tail := ps.drop c ++ pt.drop c
-    let lens := tail.map (fun i => (nd a i).pedge)
-    let sum : Option Int := lens.foldl (fun acc l => match acc, l with | some s, some v => some (s + v) | _, _ => none) (some 0)
-    pure (sum, tail.length)
+    pure (optSum (tail.map (fun i => (nd a i).pedge)), tail.length)
 
 /-- a distance as the real code's `f64`: the sum when defined, else the edge count (`unit` scaled) -/
 def distVal (unit : Int) (d : Option Int × Nat) : Int :=
